@@ -292,10 +292,24 @@ func (in *Interp) registerProtoIntrinsics() {
 			}
 			msg = in.deepCopy(m, map[*Cell]*Cell{})
 		case Slice:
-			if len(val.A) != 0 {
-				panic(in.abort("unsupported", "UnmarshalAny of raw bytes"))
-			}
 			msg = Iface{T: mt, V: in.newCell(in.zero(deref(mt)))}
+			if len(val.A) != 0 {
+				// Raw bytes that did not come from MarshalAny: harnesses only use byte strings
+				// that no message type can parse (a lone 0xff: unterminated tag varint). gogo
+				// allocates the message in the DynamicAny before the byte-level parse fails.
+				for i := range val.A {
+					if t, ok := val.A[i].V.(*Term); !ok || !t.IsConst() || t.C != 0xff {
+						panic(in.abort("unsupported", "UnmarshalAny of raw bytes other than 0xff..."))
+					}
+				}
+				if dc, ok := dst.V.(*Cell); ok && dc != nil {
+					if named, ok := deref(dst.T).(*types.Named); ok && named.Obj().Name() == "DynamicAny" {
+						ds := dc.V.(Struct)
+						in.store(&ds[0], msg)
+					}
+				}
+				return in.mkError(fr, "proto: illegal tag / unexpected EOF")
+			}
 		default:
 			panic(in.abort("internal", fmt.Sprintf("Any.Value is %T", val)))
 		}
@@ -459,4 +473,51 @@ func (in *Interp) registerWireIntrinsics() {
 		}
 		return in.deepEq(a.V, b.V)
 	}
+}
+
+// deepZero builds the term "every scalar reachable from v is zero / empty".
+func (in *Interp) deepZero(v Value) *Term {
+	f := in.tf
+	switch v := v.(type) {
+	case *Cell:
+		if v == nil {
+			return tTrue
+		}
+		return in.deepZero(v.V)
+	case Struct:
+		r := tTrue
+		for i := range v {
+			r = f.And(r, in.deepZero(v[i].V))
+		}
+		return r
+	case Array:
+		r := tTrue
+		for i := range v {
+			r = f.And(r, in.deepZero(v[i].V))
+		}
+		return r
+	case Slice:
+		return f.Bool(len(v.A) == 0)
+	case Iface:
+		if v.T == nil {
+			return tTrue
+		}
+		return in.deepZero(v.V)
+	case *Map:
+		return f.Bool(v == nil || v.N == 0)
+	case *Term:
+		if v.W == 0 {
+			return f.Not(v)
+		}
+		return f.Eq(v, f.Const(v.W, 0))
+	case Str:
+		return f.Bool(v.Len() == 0)
+	case float64:
+		return f.Bool(v == 0)
+	case AnyBlob:
+		return tFalse
+	case nil:
+		return tTrue
+	}
+	return tFalse
 }
